@@ -368,6 +368,14 @@ func NewCounter(steps int) *Counter {
 }
 
 func (loc *Location) WorkWalk(ctx *Context, w *FindRules, steps int) *Condition {
+	// In a disabled location no rule fires, however its work came
+	// about: a rule embedded in the event ("evaluate!") never
+	// passes the rule search, which is what refuses a disabled
+	// location for ordinary events.
+	if !loc.Enabled(ctx) {
+		return &Condition{"Location is disabled.", "unknown"}
+	}
+
 	c := NewCounter(steps)
 
 	if w.Values == nil {
